@@ -47,6 +47,8 @@ var xlateTargets = map[string][]string{
 		"decodeDictCap", "DecodeDictCap", "EncodeDictCap",
 		"directCodec.Encode", "directCodec.Decode",
 		"treeCodec.Encode", "treeCodec.Decode", "treeReverseCodec.Encode", "treeReverseCodec.Decode",
+		"prob.Encode", "prob.Decode", "lengthCodec.Encode", "lengthCodec.Decode",
+		"distCodec.Encode", "distCodec.Decode",
 	},
 	".": {"padLen", "readUvarint"},
 }
@@ -202,6 +204,9 @@ func (x *xl) zeroOf(n ast.Node, t types.Type) string {
 	if _, ok := t.(*types.Slice); ok {
 		return "#[]"
 	}
+	if at, ok := t.(*types.Array); ok {
+		return fmt.Sprintf("(Array.replicate %d %s)", at.Len(), x.zeroOf(n, at.Elem()))
+	}
 	return "(default : " + x.leanType(n, t) + ")"
 }
 
@@ -225,8 +230,19 @@ func (x *xl) structOf(nm *types.Named) *xstruct {
 					lt = ""
 				}
 			}()
-			if _, isArr := f.Type().(*types.Array); isArr {
-				return // arrays inside structs are outside the subset
+			if at, isArr := f.Type().(*types.Array); isArr {
+				// fixed-size arrays of integers or of completely representable structs (modelled as Lean arrays whose
+				// size is a well-formedness hypothesis of the theorems; every access is bounds-checked against the size)
+				if _, _, isInt := intInfo(at.Elem()); !isInt {
+					nm := derefNamed(at.Elem())
+					if nm == nil {
+						return
+					}
+					ns := x.structOf(nm)
+					if len(ns.fields) != nm.Underlying().(*types.Struct).NumFields() || len(ns.fields) == 0 {
+						return
+					}
+				}
 			}
 			if nm := derefNamed(f.Type()); nm != nil {
 				// a nested struct is kept only when it is representable completely
@@ -280,6 +296,7 @@ type xctx struct {
 	scope   []types.Object // variables in scope, in declaration order (for loop tuples)
 	tmp     int
 	idxMemo map[*ast.IndexExpr]string
+	aliases map[types.Object]ast.Expr // local pointer variables bound to `&lvalue`: compile-time aliases
 	pre     []func(string) string
 	depth   int
 	// loop context
@@ -398,6 +415,9 @@ func (c *xctx) expr(e ast.Expr) string {
 		}
 		switch ob := o.(type) {
 		case *types.Var:
+			if a, ok := c.aliases[ob]; ok {
+				return c.expr(a)
+			}
 			if ob.Parent() == c.x.pkg.Scope() {
 				if isErrorType(ob.Type()) {
 					return fmt.Sprintf("(Go.Err.named %s)", leanStr(ob.Name()))
@@ -564,6 +584,15 @@ func (c *xctx) complit(cl *ast.CompositeLit) string {
 
 func (c *xctx) index(v *ast.IndexExpr) string {
 	xt := c.x.info.Types[v.X].Type.Underlying()
+	if at, ok := xt.(*types.Array); ok && !c.isGlobalArray(v.X) {
+		arr := c.expr(v.X)
+		i, ok := c.idxMemo[v]
+		if !ok {
+			i = c.indexNat(v)
+			c.idxMemo[v] = i
+		}
+		return fmt.Sprintf("(%s.getD %s %s)", arr, i, c.x.zeroOf(v, at.Elem()))
+	}
 	if sl, ok := xt.(*types.Slice); ok {
 		arr := c.expr(v.X)
 		i, ok := c.idxMemo[v]
@@ -600,6 +629,15 @@ func (c *xctx) index(v *ast.IndexExpr) string {
 		return fmt.Sprintf("let %s := %s%sif %s%d ≤ %s then Go.Res.panic \"index out of range\" else%s%s", i, nat, c.ind(), neg, n, i, c.ind(), rest)
 	})
 	return fmt.Sprintf("(%s.getD %s %s)", arr, i, c.x.zeroOf(v, at.Elem()))
+}
+
+func (c *xctx) isGlobalArray(e ast.Expr) bool {
+	id, ok := e.(*ast.Ident)
+	if !ok {
+		return false
+	}
+	o, _ := c.x.info.Uses[id].(*types.Var)
+	return o != nil && o.Parent() == c.x.pkg.Scope()
 }
 
 // indexNat: the index of a slice access as a Nat variable, bound after the range check (panic when out of range)
@@ -730,6 +768,9 @@ func (c *xctx) path(e ast.Expr) (types.Object, []string) {
 		if o == nil {
 			o = c.x.info.Defs[v]
 		}
+		if a, ok := c.aliases[o]; ok {
+			return c.path(a)
+		}
 		if ob, ok := o.(*types.Var); ok && ob.Parent() != c.x.pkg.Scope() {
 			return ob, nil
 		}
@@ -746,7 +787,9 @@ func (c *xctx) path(e ast.Expr) (types.Object, []string) {
 			return o, append(p, c.fieldChain(v, sel)...)
 		}
 	case *ast.IndexExpr:
-		if _, ok := c.x.info.Types[v.X].Type.Underlying().(*types.Slice); ok {
+		_, isSlice := c.x.info.Types[v.X].Type.Underlying().(*types.Slice)
+		_, isArray := c.x.info.Types[v.X].Type.Underlying().(*types.Array)
+		if isSlice || (isArray && !c.isGlobalArray(v.X)) {
 			o, p := c.path(v.X)
 			i, ok := c.idxMemo[v]
 			if !ok {
@@ -995,6 +1038,9 @@ func (c *xctx) stmts(ss []ast.Stmt, k kont) string {
 		return k.fall()
 	}
 	s := ss[0]
+	// index variables (bounds-checked once, shared by a read and its write-back) live for one statement only: the code
+	// after an `if` is generated once per branch and must not refer to bindings of another branch
+	c.idxMemo = map[*ast.IndexExpr]string{}
 	rest := func() string { return c.stmts(ss[1:], k) }
 	line := func(l string) string {
 		pre := c.pre
@@ -1200,6 +1246,20 @@ func (c *xctx) assign(v *ast.AssignStmt) string {
 		c.noteMut(lhs)
 		if l := c.assignTo(lhs, val); l != "" {
 			lets = append(lets, l)
+		}
+	}
+	if v.Tok == token.DEFINE && len(v.Lhs) == 1 && len(v.Rhs) == 1 {
+		if ue, ok := v.Rhs[0].(*ast.UnaryExpr); ok && ue.Op == token.AND {
+			if _, isLit := ue.X.(*ast.CompositeLit); !isLit {
+				if id, ok := v.Lhs[0].(*ast.Ident); ok {
+					if o := info.Defs[id]; o != nil {
+						// `p := &lvalue`: a compile-time alias; the lvalue's indexes are evaluated (and range-checked) here
+						c.aliases[o] = ue.X
+						c.path(ue.X)
+						return ""
+					}
+				}
+			}
 		}
 	}
 	switch {
@@ -1425,7 +1485,7 @@ func (x *xl) translate(f *xfunc) (err error) {
 		}
 	}()
 	gen := func() string {
-		c := &xctx{x: x, f: f, names: map[types.Object]string{}, used: map[string]bool{"fuel": true}, idxMemo: map[*ast.IndexExpr]string{}}
+		c := &xctx{x: x, f: f, names: map[types.Object]string{}, used: map[string]bool{"fuel": true}, idxMemo: map[*ast.IndexExpr]string{}, aliases: map[types.Object]ast.Expr{}}
 		f.nloops = 0
 		f.aux = nil
 		var params []string
@@ -1597,7 +1657,11 @@ func genGoSrc(dir string) error {
 			s := x.structs[name]
 			st := s.named.Underlying().(*types.Struct)
 			for i := 0; i < st.NumFields(); i++ {
-				if nm := derefNamed(st.Field(i).Type()); nm != nil && s.has[st.Field(i).Name()] {
+				ft := st.Field(i).Type()
+				if at, ok := ft.(*types.Array); ok {
+					ft = at.Elem()
+				}
+				if nm := derefNamed(ft); nm != nil && s.has[st.Field(i).Name()] {
 					emitStruct(nm.Obj().Name())
 				}
 			}
